@@ -1,6 +1,8 @@
 import TangeloModel.PauliExp
 import TangeloProofs.Lemmas.OpInverse
 import TangeloProofs.CycLaws
+import TangeloProofs.Lemmas.Adjoint
+import TangeloProofs.Lemmas.HalfPi
 /-!
 # C06 — Pauli-exponential and time-evolution circuits implement exp(−itH)
 
@@ -371,6 +373,338 @@ theorem steps_power (k : Consts R) (ops : List Op) (n : Nat) (ψ : State R) :
 example : ∃ gs, gates [(0, .Z), (2, .Z)] (Ang.piQuarter 1) true false (some [5]) = some gs ∧ gs.length = 3 := ⟨_, rfl, rfl⟩
 example : allZ [(0, .Z), (2, .Z)] = true ∧ (sortNat [0, 2]).Nodup ∧ sortNat [0, 2] ≠ [] := by decide
 
+/-! ## the general Pauli word (any mix of X, Y, Z letters), with or without control
+
+`exp_pauliword_to_gates` emits basis changes (H for X, RX(π/2) for Y), the CNOT ladder around the rotation, and
+the inverse basis changes in reverse order.  With `B` the product of the basis changes, `D` the (controlled)
+parity phase of the Z-type core and `P_w` the Pauli word itself:  `B⁻¹ D B = α·1 + β·P_w` with
+`(α, β) = (cos c, −i sin c)` where all control bits are 1 and `(1, 0)` elsewhere. -/
+section general
+variable {S : Type} [CommRing S] [StarRing S]
+
+def Bf (k : Consts S) : Pauli → M2 S
+  | .X => baseMatrix k .H 0
+  | .Y => baseMatrix k .RX (Ang.piQuarter 2)
+  | .Z => M2.one
+
+def Bi (k : Consts S) : Pauli → M2 S
+  | .X => baseMatrix k .H 0
+  | .Y => baseMatrix k .RX (Ang.piQuarter (-2))
+  | .Z => M2.one
+
+def basisOp (i : Nat) (p : Pauli) (inverse : Bool) : Option Op :=
+  match p with
+  | .X => some (Op.one .H 0 i [])
+  | .Y => some (Op.one .RX (if inverse then Ang.piQuarter (-2) else Ang.piQuarter 2) i [])
+  | .Z => none
+
+theorem gatesToOps_cons_some (g : Gate) (gs : List Gate) (o : Op) (os : List Op) (h1 : g.toOp = some o)
+    (h2 : gatesToOps gs = some os) : gatesToOps (g :: gs) = some (o :: os) := by
+  simp [gatesToOps, h1, h2]
+
+theorem basis_gates_ops (w : PWord) (inv : Bool) :
+    gatesToOps (w.filterMap (fun (f : Nat × Pauli) => basisGate f.1 f.2 inv)) = some (w.filterMap (fun f => basisOp f.1 f.2 inv)) := by
+  induction w with
+  | nil => rfl
+  | cons f fs ih =>
+    obtain ⟨i, p⟩ := f
+    cases p
+    · simp only [List.filterMap_cons, basisGate, basisOp]
+      exact gatesToOps_cons_some _ _ _ _ rfl ih
+    · simp only [List.filterMap_cons, basisGate, basisOp]
+      exact gatesToOps_cons_some _ _ _ _ rfl ih
+    · simpa only [List.filterMap_cons, basisGate, basisOp] using ih
+
+theorem sem_one_nil (k : Consts S) (b : Base) (θ : Ang) (t : Nat) (ψ : State S) :
+    (Op.one b θ t []).sem k ψ = app1 (baseMatrix k b θ) t ψ := by
+  simp only [Op.sem, ctl_nil]
+
+theorem sem_basis_ops_fwd (k : Consts S) (w : PWord) (ψ : State S) :
+    semOps k (w.filterMap (fun f => basisOp f.1 f.2 false)) ψ = wordOps (Bf k) w ψ := by
+  induction w generalizing ψ with
+  | nil => rfl
+  | cons f fs ih =>
+    obtain ⟨i, p⟩ := f
+    cases p
+    · have e : List.filterMap (fun f => basisOp f.1 f.2 false) ((i, Pauli.X) :: fs)
+          = Op.one .H 0 i [] :: List.filterMap (fun f => basisOp f.1 f.2 false) fs := rfl
+      rw [e, wordOps_cons]
+      show semOps k _ ((Op.one .H 0 i []).sem k ψ) = _
+      rw [ih, sem_one_nil]; rfl
+    · have e : List.filterMap (fun f => basisOp f.1 f.2 false) ((i, Pauli.Y) :: fs)
+          = Op.one .RX (Ang.piQuarter 2) i [] :: List.filterMap (fun f => basisOp f.1 f.2 false) fs := rfl
+      rw [e, wordOps_cons]
+      show semOps k _ ((Op.one .RX (Ang.piQuarter 2) i []).sem k ψ) = _
+      rw [ih, sem_one_nil]; rfl
+    · have e : List.filterMap (fun f => basisOp f.1 f.2 false) ((i, Pauli.Z) :: fs)
+          = List.filterMap (fun f => basisOp f.1 f.2 false) fs := rfl
+      rw [e, wordOps_cons]
+      show _ = wordOps (Bf k) fs (app1 M2.one i ψ)
+      rw [app1_one]; exact ih ψ
+
+theorem sem_basis_ops_inv (k : Consts S) (w : PWord) (ψ : State S) :
+    semOps k (w.filterMap (fun f => basisOp f.1 f.2 true)) ψ = wordOps (Bi k) w ψ := by
+  induction w generalizing ψ with
+  | nil => rfl
+  | cons f fs ih =>
+    obtain ⟨i, p⟩ := f
+    cases p
+    · have e : List.filterMap (fun f => basisOp f.1 f.2 true) ((i, Pauli.X) :: fs)
+          = Op.one .H 0 i [] :: List.filterMap (fun f => basisOp f.1 f.2 true) fs := rfl
+      rw [e, wordOps_cons]
+      show semOps k _ ((Op.one .H 0 i []).sem k ψ) = _
+      rw [ih, sem_one_nil]; rfl
+    · have e : List.filterMap (fun f => basisOp f.1 f.2 true) ((i, Pauli.Y) :: fs)
+          = Op.one .RX (Ang.piQuarter (-2)) i [] :: List.filterMap (fun f => basisOp f.1 f.2 true) fs := rfl
+      rw [e, wordOps_cons]
+      show semOps k _ ((Op.one .RX (Ang.piQuarter (-2)) i []).sem k ψ) = _
+      rw [ih, sem_one_nil]; rfl
+    · have e : List.filterMap (fun f => basisOp f.1 f.2 true) ((i, Pauli.Z) :: fs)
+          = List.filterMap (fun f => basisOp f.1 f.2 true) fs := rfl
+      rw [e, wordOps_cons]
+      show _ = wordOps (Bi k) fs (app1 M2.one i ψ)
+      rw [app1_one]; exact ih ψ
+
+/-- one-qubit operators on distinct qubits can be applied in any order: reversing the word changes nothing -/
+theorem wordOps_append_one (F : Pauli → M2 S) (w : PWord) (q : Nat) (p : Pauli) (ψ : State S) :
+    wordOps F (w ++ [(q, p)]) ψ = app1 (F p) q (wordOps F w ψ) := by
+  simp [wordOps, List.foldl_append]
+
+theorem wordOps_reverse (F : Pauli → M2 S) (w : PWord) (hnd : (w.map (·.1)).Nodup) (ψ : State S) :
+    wordOps F w.reverse ψ = wordOps F w ψ := by
+  induction w generalizing ψ with
+  | nil => rfl
+  | cons f fs ih =>
+    obtain ⟨q, p⟩ := f
+    simp only [List.map_cons, List.nodup_cons] at hnd
+    rw [List.reverse_cons, wordOps_append_one, ih hnd.2, wordOps_cons, app1_wordOps_comm F (F p) q fs hnd.1]
+
+/-- three layers of one-qubit operators on the same distinct qubits compose letter by letter -/
+theorem wordOps_three (F1 F2 F3 G : Pauli → M2 S) (hG : ∀ p, (F3 p).mul ((F2 p).mul (F1 p)) = G p)
+    (w : PWord) (hnd : (w.map (·.1)).Nodup) (ψ : State S) :
+    wordOps F3 w (wordOps F2 w (wordOps F1 w ψ)) = wordOps G w ψ := by
+  induction w generalizing ψ with
+  | nil => rfl
+  | cons f fs ih =>
+    obtain ⟨q, p⟩ := f
+    simp only [List.map_cons, List.nodup_cons] at hnd
+    have hq := hnd.1
+    simp only [wordOps_cons]
+    rw [app1_wordOps_comm F1 (F2 p) q fs hq, app1_wordOps_comm F2 (F3 p) q fs hq, app1_wordOps_comm F1 (F3 p) q fs hq,
+      ih hnd.2, app1_app1 (F2 p) (F1 p), app1_app1, hG p]
+
+theorem wordOps_two (F1 F3 G : Pauli → M2 S) (hG : ∀ p, (F3 p).mul (F1 p) = G p)
+    (w : PWord) (hnd : (w.map (·.1)).Nodup) (ψ : State S) :
+    wordOps F3 w (wordOps F1 w ψ) = wordOps G w ψ := by
+  induction w generalizing ψ with
+  | nil => rfl
+  | cons f fs ih =>
+    obtain ⟨q, p⟩ := f
+    simp only [List.map_cons, List.nodup_cons] at hnd
+    simp only [wordOps_cons]
+    rw [app1_wordOps_comm F1 (F3 p) q fs hnd.1, ih hnd.2, app1_app1, hG p]
+
+theorem wordOps_one (w : PWord) (ψ : State S) : wordOps (fun _ => (M2.one : M2 S)) w ψ = ψ := by
+  induction w generalizing ψ with
+  | nil => rfl
+  | cons f fs ih => obtain ⟨q, p⟩ := f; rw [wordOps_cons, app1_one, ih]
+
+/-! linearity with coefficients that do not depend on the qubits of the word -/
+
+theorem app1_add (m : M2 S) (t : Nat) (a b : State S) :
+    app1 m t (fun x => a x + b x) = fun x => app1 m t a x + app1 m t b x := by
+  funext x; simp only [app1]; split <;> ring
+
+theorem app1_coef (m : M2 S) (t : Nat) (f : Bits → S) (hf : ∀ x b, f (x.set t b) = f x) (χ : State S) :
+    app1 m t (fun x => f x * χ x) = fun x => f x * app1 m t χ x := by
+  funext x; simp only [app1, hf]; split <;> ring
+
+theorem wordOps_add (F : Pauli → M2 S) (w : PWord) (a b : State S) :
+    wordOps F w (fun x => a x + b x) = fun x => wordOps F w a x + wordOps F w b x := by
+  induction w generalizing a b with
+  | nil => rfl
+  | cons f fs ih => obtain ⟨q, p⟩ := f; simp only [wordOps_cons]; rw [app1_add, ih]
+
+theorem wordOps_coef (F : Pauli → M2 S) (w : PWord) (f : Bits → S)
+    (hf : ∀ q ∈ w.map (·.1), ∀ x b, f (x.set q b) = f x) (χ : State S) :
+    wordOps F w (fun x => f x * χ x) = fun x => f x * wordOps F w χ x := by
+  induction w generalizing χ with
+  | nil => rfl
+  | cons g gs ih =>
+    obtain ⟨q, p⟩ := g
+    simp only [wordOps_cons]
+    rw [app1_coef (F p) q f (hf q (by simp)), ih (fun q' h => hf q' (by simp [h]))]
+
+/-! parity of the sorted index list = parity sign of the word -/
+
+theorem parity_insertSorted (q : Nat) (l : List Nat) (x : Bits) : parity (insertSorted q l) x = xor (x q) (parity l x) := by
+  induction l with
+  | nil => rfl
+  | cons a as ih =>
+    simp only [insertSorted]
+    split
+    · rfl
+    · simp only [parity, List.foldr_cons] at ih ⊢
+      rw [ih]; cases x q <;> cases x a <;> simp
+
+theorem parity_sortNat (l : List Nat) (x : Bits) : parity (sortNat l) x = parity l x := by
+  induction l with
+  | nil => rfl
+  | cons a as ih =>
+    have : sortNat (a :: as) = insertSorted a (sortNat as) := rfl
+    rw [this, parity_insertSorted, ih]; rfl
+
+theorem paritySign_eq (w : PWord) (x : Bits) :
+    paritySign (R := S) w x = if parity (w.map (·.1)) x then -1 else 1 := by
+  induction w with
+  | nil => simp [paritySign, parity]
+  | cons f fs ih =>
+    obtain ⟨q, p⟩ := f
+    rw [paritySign_cons, ih]
+    have e : parity (List.map (·.1) ((q, p) :: fs)) x = xor (x q) (parity (List.map (·.1) fs) x) := rfl
+    rw [e]
+    cases x q <;> cases parity (List.map (·.1) fs) x <;> simp
+
+/-- 2×2 facts about the basis changes -/
+theorem basis_conj_Z (k : Consts S) (L : k.Laws) (hp : HalfPi k) (p : Pauli) :
+    (Bi k p).mul ((baseMatrix k .Z 0).mul (Bf k p)) = pauliMat k p := by
+  cases p
+  · apply M2.ext' <;> simp only [Bi, Bf, pauliMat, baseMatrix, M2.mul] <;> first | ring1 | linear_combination L.rsqrt2_sq
+  · simp only [Bi, Bf, pauliMat, rx_half_pi k L hp, rx_minus_half_pi k L hp]
+    apply M2.ext' <;> simp only [baseMatrix, M2.mul] <;>
+      first
+        | ring1
+        | linear_combination (k.rsqrt2 * k.rsqrt2) * L.i_sq
+        | linear_combination (-(k.rsqrt2 * k.rsqrt2)) * L.i_sq
+        | linear_combination (-k.i) * L.rsqrt2_sq
+        | linear_combination k.i * L.rsqrt2_sq
+  · apply M2.ext' <;> simp [Bi, Bf, pauliMat, baseMatrix, M2.mul, M2.one]
+
+theorem basis_cancel (k : Consts S) (L : k.Laws) (hp : HalfPi k) (p : Pauli) :
+    (Bi k p).mul (Bf k p) = (M2.one : M2 S) := by
+  cases p
+  · apply M2.ext' <;> simp only [Bi, Bf, baseMatrix, M2.mul, M2.one] <;> first | ring1 | linear_combination L.rsqrt2_sq
+  · simp only [Bi, Bf, rx_half_pi k L hp, rx_minus_half_pi k L hp]
+    apply M2.ext' <;> simp only [M2.mul, M2.one] <;>
+      first
+        | ring1
+        | linear_combination L.rsqrt2_sq - (k.rsqrt2 * k.rsqrt2) * L.i_sq
+  · apply M2.ext' <;> simp [Bi, Bf, M2.mul, M2.one]
+
+theorem insertSorted_perm (q : Nat) (l : List Nat) : (insertSorted q l).Perm (q :: l) := by
+  induction l with
+  | nil => exact List.Perm.refl _
+  | cons a as ih =>
+    simp only [insertSorted]
+    split
+    · exact List.Perm.refl _
+    · exact (List.Perm.cons a ih).trans (List.Perm.swap q a as)
+
+theorem sortNat_perm (l : List Nat) : (sortNat l).Perm l := by
+  induction l with
+  | nil => exact List.Perm.refl _
+  | cons a as ih =>
+    have : sortNat (a :: as) = insertSorted a (sortNat as) := rfl
+    rw [this]
+    exact (insertSorted_perm a _).trans (List.Perm.cons a ih)
+
+theorem e_split (k : Consts S) (L : k.Laws) (θ : Ang) :
+    k.e θ = k.cosH θ - k.misinH θ ∧ k.e (-θ) = k.cosH θ + k.misinH θ := by
+  constructor <;> simp only [Consts.cosH, Consts.misinH]
+  · linear_combination (-(k.e θ)) * L.two_half
+  · linear_combination (-(k.e (-θ))) * L.two_half
+
+/-- **`exp_pauliword_to_gates` for an arbitrary Pauli word**: the emitted gate list implements
+    `cos c · 1 − i sin c · P_w` where every control bit is 1 and the identity elsewhere — for every word with
+    distinct qubits (any mix of X, Y, Z, any length), every coefficient (both sign branches of the angle rule),
+    with or without a control list disjoint from the word, on every state of every register size. -/
+theorem exp_pauliword_general (k : Consts S) (L : k.Laws) (hp : HalfPi k) (w : PWord) (γ : Ang) (nonneg var : Bool)
+    (ctl : Option (List Nat)) (hne : w ≠ []) (hnd : (w.map (·.1)).Nodup) (hcs : ∀ c ∈ ctl.getD [], c ∉ w.map (·.1)) :
+    ∃ gs ops, gates w γ nonneg var ctl = some gs ∧ gatesToOps gs = some ops ∧
+      ∀ (ψ : State S) (x : Bits), semOps k ops ψ x =
+        (if (ctl.getD []).all (fun c => x c) then k.cosH (γ + γ) else 1) * ψ x
+        + (if (ctl.getD []).all (fun c => x c) then k.misinH (γ + γ) else 0) * wordOps (pauliMat k) w ψ x := by
+  -- the sorted support
+  have hperm := sortNat_perm (w.map (·.1))
+  have hlne : sortNat (w.map (·.1)) ≠ [] := by
+    intro e
+    have := hperm.length_eq
+    rw [e] at this
+    cases w with
+    | nil => exact hne rfl
+    | cons a as => simp at this
+  have hlnd : (sortNat (w.map (·.1))).Nodup := hperm.nodup_iff.mpr hnd
+  have hlcs : ∀ c ∈ ctl.getD [], c ∉ sortNat (w.map (·.1)) := fun c hc hm => hcs c hc (hperm.mem_iff.mp hm)
+  have hlast : (sortNat (w.map (·.1))).getLast? = some ((sortNat (w.map (·.1))).getLast hlne) :=
+    List.getLast?_eq_some_getLast hlne
+  -- the emitted gate list
+  have hrot : ∃ rot : Gate, rot.toOp = some (Op.one .RZ (rotAngle γ nonneg) ((sortNat (w.map (·.1))).getLast hlne) (ctl.getD [])) ∧
+      gates w γ nonneg var ctl = some (w.filterMap (fun f => basisGate f.1 f.2 false) ++ cnotLadder (sortNat (w.map (·.1))) ++ [rot]
+        ++ (cnotLadder (sortNat (w.map (·.1)))).reverse ++ w.reverse.filterMap (fun f => basisGate f.1 f.2 true)) := by
+    cases ctl with
+    | none =>
+      refine ⟨⟨"RZ", [(sortNat (w.map (·.1))).getLast hlne], none, .ang (rotAngle γ nonneg), var⟩, rfl, ?_⟩
+      simp only [gates, hlast]
+    | some cs =>
+      refine ⟨⟨"CRZ", [(sortNat (w.map (·.1))).getLast hlne], some cs, .ang (rotAngle γ nonneg), var⟩, rfl, ?_⟩
+      simp only [gates, hlast]
+  obtain ⟨rot, hrotOp, hgates⟩ := hrot
+  refine ⟨_, w.filterMap (fun f => basisOp f.1 f.2 false) ++ ladderOps (sortNat (w.map (·.1)))
+      ++ [Op.one .RZ (rotAngle γ nonneg) ((sortNat (w.map (·.1))).getLast hlne) (ctl.getD [])]
+      ++ (ladderOps (sortNat (w.map (·.1)))).reverse ++ w.reverse.filterMap (fun f => basisOp f.1 f.2 true), hgates, ?_, ?_⟩
+  · apply gatesToOps_append'
+    · apply gatesToOps_append'
+      · apply gatesToOps_append'
+        · exact gatesToOps_append' _ _ _ _ (basis_gates_ops w false) (cnotLadder_ops _)
+        · simp [gatesToOps, hrotOp]
+      · exact gatesToOps_reverse' _ _ (cnotLadder_ops _)
+    · exact basis_gates_ops w.reverse true
+  · intro ψ x
+    set l := sortNat (w.map (·.1)) with hl
+    set cs := ctl.getD [] with hcsdef
+    set θ := γ + γ with hθ
+    -- split the semantics into basis change, core, inverse basis change
+    have hsplit : semOps k (w.filterMap (fun f => basisOp f.1 f.2 false) ++ ladderOps l
+        ++ [Op.one .RZ (rotAngle γ nonneg) (l.getLast hlne) cs] ++ (ladderOps l).reverse
+        ++ w.reverse.filterMap (fun f => basisOp f.1 f.2 true)) ψ
+        = wordOps (Bi k) w (semOps k (ladderOps l ++ [Op.one .RZ θ (l.getLast hlne) cs] ++ (ladderOps l).reverse)
+            (wordOps (Bf k) w ψ)) := by
+      have hmat : ∀ φ, (Op.one .RZ (rotAngle γ nonneg) (l.getLast hlne) cs).sem k φ =
+          (Op.one .RZ θ (l.getLast hlne) cs).sem k φ := by
+        intro φ
+        cases nonneg
+        · simp only [Op.sem, rotAngle_same k L γ .RZ]; rfl
+        · rfl
+      have hrev : (w.map (·.1)).reverse.Nodup := List.nodup_reverse.mpr hnd
+      rw [← wordOps_reverse (Bi k) w hnd, ← sem_basis_ops_inv k w.reverse, ← sem_basis_ops_fwd k w ψ]
+      simp only [semOps, List.foldl_append, List.foldl_cons, List.foldl_nil, hmat]
+    rw [hsplit]
+    -- the core is a diagonal phase
+    have hcore : ∀ χ : State S, semOps k (ladderOps l ++ [Op.one .RZ θ (l.getLast hlne) cs] ++ (ladderOps l).reverse) χ
+        = fun y => (if cs.all (fun c => y c) then k.cosH θ else 1) * χ y
+            + (if cs.all (fun c => y c) then k.misinH θ else 0) * wordOps (fun _ => baseMatrix k .Z 0) w χ y := by
+      intro χ
+      funext y
+      rw [ladder_rz_sem k l hlne hlnd cs hlcs θ χ y, zWord_sign, paritySign_eq,
+        ← parity_sortNat (List.map (fun x => x.1) w) y, ← hl]
+      obtain ⟨e1, e2⟩ := e_split k L θ
+      cases hc : cs.all (fun c => y c) <;> cases hpar : parity l y <;>
+        simp only [Bool.false_eq_true, if_false, if_true] <;> first | ring1 | (rw [e1]; ring1) | (rw [e2]; ring1)
+    rw [hcore]
+    -- push the inverse basis change through the two summands
+    have hind : ∀ q ∈ w.map (·.1), ∀ (y : Bits) (b : Bool), (cs.all fun c => (y.set q b) c) = cs.all (fun c => y c) := by
+      intro q hq y b
+      exact all_set_of_not_mem cs y q b (fun hm => hcs q hm hq)
+    rw [wordOps_add]
+    rw [wordOps_coef (Bi k) w (fun y => if cs.all (fun c => y c) then k.cosH θ else 1)
+        (fun q hq y b => by simp only [hind q hq y b])]
+    rw [wordOps_coef (Bi k) w (fun y => if cs.all (fun c => y c) then k.misinH θ else 0)
+        (fun q hq y b => by simp only [hind q hq y b])]
+    rw [wordOps_two (Bf k) (Bi k) (fun _ => M2.one) (basis_cancel k L hp) w hnd, wordOps_one]
+    rw [wordOps_three (Bf k) (fun _ => baseMatrix k .Z 0) (Bi k) (pauliMat k) (basis_conj_Z k L hp) w hnd]
+
+end general
+
 /-! ## executable instance -/
 
 /-- the extra law e(π/2) = (1+i)/√2 holds for the amplitudes the driver computes -/
@@ -392,5 +726,14 @@ theorem y_letter_exec (θ : Ang) :
     (baseMatrix cycConsts .RX (Ang.piQuarter (-2))).mul ((baseMatrix cycConsts .RZ θ).mul (baseMatrix cycConsts .RX (Ang.piQuarter 2))) =
       ⟨cycConsts.cosH θ, -(cycConsts.i * cycConsts.misinH θ), cycConsts.i * cycConsts.misinH θ, cycConsts.cosH θ⟩ :=
   y_letter cycConsts cycConsts_laws halfPi_exec θ
+
+/-- the general Pauli-word theorem for the amplitudes the model driver computes -/
+theorem exp_pauliword_general_exec (w : PWord) (γ : Ang) (nonneg var : Bool)
+    (ctl : Option (List Nat)) (hne : w ≠ []) (hnd : (w.map (·.1)).Nodup) (hcs : ∀ c ∈ ctl.getD [], c ∉ w.map (·.1)) :
+    ∃ gs ops, gates w γ nonneg var ctl = some gs ∧ gatesToOps gs = some ops ∧
+      ∀ (ψ : State Cyc) (x : Bits), semOps cycConsts ops ψ x =
+        (if (ctl.getD []).all (fun c => x c) then cycConsts.cosH (γ + γ) else 1) * ψ x
+        + (if (ctl.getD []).all (fun c => x c) then cycConsts.misinH (γ + γ) else 0) * wordOps (pauliMat cycConsts) w ψ x :=
+  exp_pauliword_general cycConsts cycConsts_laws halfPi_exec w γ nonneg var ctl hne hnd hcs
 
 end Tangelo.C06
